@@ -83,7 +83,7 @@ def oracle_c05(rec: I.Rec):
             pass
     # stop
     why = rec.steps[-1]["snap"]["why"][0] if rec.steps else rec.first_snap["why"][0]
-    cancel_injected = any(c[0] == "w" and c[1] == "cancel" for c in rec.choices)
+    cancel_injected = any((c[0] == "w" and c[1] == "cancel") or c[0] == "s" for c in rec.choices)
     if why == "NoWorkers":
         return errs
     if why == "GoalMet":
@@ -107,15 +107,29 @@ def oracle_c05(rec: I.Rec):
     pend = getattr(rec.learner, "pending_points", None)
     if pend is not None and len(pend) > 0:
         errs.append(("pending_left", f"learner.pending_points = {sorted(map(repr, pend))[:5]} after the runner stopped"))
+    # every evaluation the runner started is, once the runner has stopped, either consumed (its
+    # result was taken by the runner) or cancelled.  A cancel() that was refused (the job is already
+    # running) does not cancel anything: such an evaluation has to be waited for and consumed.
+    # (After an error stop -- a RuntimeError out of _process_futures -- the for loop over the results is
+    # left early; the property's stop clause is about goal/cancel stops, there only the weaker
+    # "cancel() was called or consumed" is demanded.)
+    visible = ctx.futs if spec["kind"] == "blocking" else ctx.futobj
     for fid in range(ctx.nfutures()):
-        if fid not in ctx.all_result_calls and fid not in ctx.cancel_calls:
-            errs.append(("outstanding_future", f"future {fid} (point {ctx.sub_point[fid]!r}) was neither consumed nor cancelled"))
+        fut = visible[fid] if fid < len(visible) else None
+        consumed = fid in ctx.all_result_calls
+        really_cancelled = fut is not None and fut.cancelled()
+        asked_cancel = fid in ctx.cancel_calls
+        if why == "Failed":
+            ok = consumed or asked_cancel
+        else:
+            ok = consumed or really_cancelled
+        if not ok:
+            state = "unknown to the runner's bookkeeping" if fut is None else \
+                ("still in flight" if not fut.done() else "finished, result never taken")
+            errs.append(("outstanding_future", f"evaluation still outstanding after the runner stopped: future {fid} "
+                                               f"(point {ctx.sub_point[fid]!r}) was neither cancelled nor consumed ({state}; "
+                                               f"cancel() {'was refused' if asked_cancel else 'never called'})"))
             break
-    if spec["kind"] != "blocking":
-        for fid, fut in enumerate(ctx.futobj):
-            if not fut.done():
-                errs.append(("outstanding_future", f"asyncio future {fid} still pending after the runner stopped"))
-                break
     return errs
 
 
